@@ -1,4 +1,5 @@
 import CstModel.Props.C12
+import CstModel.Proofs.ChunksTree
 open Cst.C12
 #print axioms concat_spec
 #print axioms contains_spec
@@ -8,3 +9,7 @@ open Cst.C12
 #print axioms slice_spec
 #print axioms zip_spec
 #print axioms viewsEq_spec
+#print axioms Cst.cut_spec
+#print axioms Cst.leaves_text
+#print axioms Cst.walk_all_mat
+#print axioms Cst.chunks_tree
